@@ -229,7 +229,11 @@ def scalar_harness(prop, term, ty, src, n, t, c, chunk_expr=None, extra_pre="", 
     body += extra_pre
     body += terminal_code(p, params, term, n)
     if covers:
-        body += sched_covers(n, t)
+        if term in ("first", "first_with_index"):
+            # early exit at the first surviving element: "one worker takes everything" need not be reachable
+            body += f"    kani::cover!(model::claimed_by(0) == {t - 1});\n" if t >= 2 else "    kani::cover!(true);\n"
+        else:
+            body += sched_covers(n, t)
     body += extra_post
     name = cfg_name(prop, term, ty, src, f"n{n}", f"t{t}", f"c{c}", tag)
     return H(name, body, {"terminal": term, "type": p.type(), "kernel": KERNEL_OF_TYPE[p.type()], "src": src, "n": n,
